@@ -11,7 +11,7 @@ import (
 func init() {
 	register(&Property{
 		ID:       "C15",
-		Patterns: []string{".", "./graphics/content"},
+		Patterns: []string{".", "./graphics/content", "./graphics/content/builder"},
 		Run:      runC15,
 		Explanation: "Static comparison of the content-stream writer with the content-stream scanner: (R1) the scanner's byte-class table equals pdf.class and ISO 32000-2 7.2.3 (the two tables are separate literals); (R2) the content scanner's ReadName/ReadString/ReadHexString/tryHex are the inverses of pdf.formatName/formatString (same byte-set obligations as C01, with the content scanner as reader); " +
 			"(R3) a pdf.Name never reaches the output as raw bytes — only through pdf.Format (the unescaped inline-image key defect was found here and fixed); (R4) Operator.Format writes every operand with pdf.Format(OptContentStream) followed by a white-space separator, the operator name followed by an EOL, and frames inline images as 'BI' EOL … 'ID' + one white-space byte, data, one EOL byte, 'EI' EOL; the scanner accepts 'EI' as terminator only after CR or LF, drops exactly that one byte, skips exactly one white-space byte after ID and requires a non-regular byte after EI; " +
@@ -21,6 +21,7 @@ func init() {
 
 func runC15(c *core.Ctx) {
 	const cp = "pdf/graphics/content"
+	defer rulePublishedNotRecycled(c, cp, cp+"/builder")
 	ruleClassTable(c, "C15-R1", "pdf")
 	ruleClassTable(c, "C15-R1", cp)
 	c.Check("C15-R1", "class-tables-equal", "the object scanner and the content scanner classify every byte identically", func(o *core.Ob) {
@@ -232,5 +233,206 @@ func runC15(c *core.Ctx) {
 		}
 		o.Require(n >= 3, "expected the integer parses of both scanners, found %d", n)
 		_ = types.Typ
+	})
+}
+
+// recycleExempt lists slice fields that are handed out AND recycled by
+// design, with the contract that makes it sound.
+var recycleExempt = map[string]string{
+	"pdf/graphics/content.scanner.args": "Operator.Args is documented as valid only until the next call of Scan (the iterator contract); the buffer is recycled between operators, never within one",
+}
+
+// rulePublishedNotRecycled (C15-R9): storage that has been handed out must
+// not be reused.  For every slice-typed struct field of the content scanner
+// and the content builder: if the field's backing array is published
+// somewhere (returned, put into a composite literal, appended as an element
+// of another container, converted and kept — directly or through local
+// aliases) then no code may recycle it by re-slicing to length zero
+// (f = f[:0], append(f[:0], ...)); the publisher owns it from then on.  The
+// combination silently overwrites operands (two arrays of one operator share
+// storage) or previously harvested operator lists.
+func rulePublishedNotRecycled(c *core.Ctx, pkgs ...string) {
+	type site struct {
+		fn   *core.Func
+		node ast.Node
+		how  string
+	}
+	publish := map[*types.Var][]site{}
+	recycle := map[*types.Var][]site{}
+	nFields := 0
+	for _, sp := range pkgs {
+		pkg := c.Prog.Pkg(sp)
+		for _, fn := range c.Prog.Funcs(pkg) {
+			fn := fn
+			info := fn.Info()
+			// which field does an expression share its backing array with?
+			alias := map[types.Object]*types.Var{}
+			var fieldOf func(e ast.Expr) *types.Var
+			fieldOf = func(e ast.Expr) *types.Var {
+				e = ast.Unparen(e)
+				switch x := e.(type) {
+				case *ast.SelectorExpr:
+					if v, ok := info.ObjectOf(x.Sel).(*types.Var); ok && v.IsField() {
+						if _, isSlice := v.Type().Underlying().(*types.Slice); isSlice && v.Pkg() != nil && core.ShortPkg(v.Pkg().Path()) == sp {
+							return v
+						}
+					}
+				case *ast.Ident:
+					if obj := info.ObjectOf(x); obj != nil {
+						return alias[obj]
+					}
+				case *ast.SliceExpr:
+					return fieldOf(x.X)
+				case *ast.CallExpr:
+					if tv, ok := info.Types[x.Fun]; ok && tv.IsType() && len(x.Args) == 1 {
+						if _, isSlice := tv.Type.Underlying().(*types.Slice); isSlice {
+							return fieldOf(x.Args[0])
+						}
+					}
+				}
+				return nil
+			}
+			isZeroReslice := func(e ast.Expr) bool {
+				sl, ok := ast.Unparen(e).(*ast.SliceExpr)
+				if !ok || sl.High == nil {
+					return false
+				}
+				k, isK := core.IntConst(info, sl.High)
+				return isK && k == 0
+			}
+			// aliases: fixpoint over local definitions
+			for changed := true; changed; {
+				changed = false
+				ast.Inspect(fn.Decl.Body, func(m ast.Node) bool {
+					as, ok := m.(*ast.AssignStmt)
+					if !ok || len(as.Lhs) != len(as.Rhs) {
+						return true
+					}
+					for i, l := range as.Lhs {
+						id, ok := ast.Unparen(l).(*ast.Ident)
+						if !ok {
+							continue
+						}
+						obj := info.ObjectOf(id)
+						if obj == nil || alias[obj] != nil {
+							continue
+						}
+						if f := fieldOf(as.Rhs[i]); f != nil && !isZeroReslice(as.Rhs[i]) {
+							alias[obj] = f
+							changed = true
+						}
+					}
+					return true
+				})
+			}
+			ast.Inspect(fn.Decl.Body, func(m ast.Node) bool {
+				switch x := m.(type) {
+				case *ast.AssignStmt:
+					for i, l := range x.Lhs {
+						if len(x.Lhs) != len(x.Rhs) {
+							break
+						}
+						r := x.Rhs[i]
+						// recycle: field = <same backing>[:0]  or  field = append(<same backing>[:0], ...)
+						if lf := fieldOf(l); lf != nil {
+							if _, isSel := ast.Unparen(l).(*ast.SelectorExpr); isSel {
+								if isZeroReslice(r) && fieldOf(r) == lf {
+									recycle[lf] = append(recycle[lf], site{fn, x, c.Prog.Src(x)})
+								}
+								if call, ok := ast.Unparen(r).(*ast.CallExpr); ok {
+									if id, ok := call.Fun.(*ast.Ident); ok && id.Name == "append" && len(call.Args) >= 1 && isZeroReslice(call.Args[0]) && fieldOf(call.Args[0]) == lf {
+										recycle[lf] = append(recycle[lf], site{fn, x, c.Prog.Src(x)})
+									}
+								}
+							}
+						}
+						// publish: stored into a field/element of something else
+						if f := fieldOf(r); f != nil && !isZeroReslice(r) {
+							switch lt := ast.Unparen(l).(type) {
+							case *ast.SelectorExpr:
+								if fieldOf(l) != f {
+									publish[f] = append(publish[f], site{fn, x, "stored in " + c.Prog.Src(lt)})
+								}
+							case *ast.IndexExpr:
+								publish[f] = append(publish[f], site{fn, x, "stored in " + c.Prog.Src(lt)})
+							}
+						}
+					}
+				case *ast.ReturnStmt:
+					for _, r := range x.Results {
+						if f := fieldOf(r); f != nil && !isZeroReslice(r) {
+							publish[f] = append(publish[f], site{fn, x, "returned"})
+						}
+					}
+				case *ast.CallExpr:
+					// append(other, <field backing>) as an element; function arguments are not
+					// counted (callees that keep them are rare and reviewed separately)
+					if id, ok := x.Fun.(*ast.Ident); ok && id.Name == "append" && len(x.Args) >= 2 && !x.Ellipsis.IsValid() {
+						for _, a := range x.Args[1:] {
+							if f := fieldOf(a); f != nil && !isZeroReslice(a) {
+								publish[f] = append(publish[f], site{fn, x, "appended as an element"})
+							}
+						}
+					}
+				case *ast.CompositeLit:
+					for _, el := range x.Elts {
+						v := el
+						if kv, ok := el.(*ast.KeyValueExpr); ok {
+							v = kv.Value
+						}
+						if f := fieldOf(v); f != nil && !isZeroReslice(v) {
+							publish[f] = append(publish[f], site{fn, x, "placed in a composite literal"})
+						}
+					}
+				}
+				return true
+			})
+			// values that flow into an interface-typed local which is then published (obj = arr; append(data, obj))
+		}
+		for _, name := range pkg.Types.Scope().Names() {
+			if tn, ok := pkg.Types.Scope().Lookup(name).(*types.TypeName); ok {
+				if st, ok := tn.Type().Underlying().(*types.Struct); ok {
+					for i := 0; i < st.NumFields(); i++ {
+						if _, isSlice := st.Field(i).Type().Underlying().(*types.Slice); isSlice {
+							nFields++
+						}
+					}
+				}
+			}
+		}
+	}
+	fieldKey := func(f *types.Var) string {
+		// owner type name: search the package scope
+		for _, name := range f.Pkg().Scope().Names() {
+			if tn, ok := f.Pkg().Scope().Lookup(name).(*types.TypeName); ok {
+				if st, ok := tn.Type().Underlying().(*types.Struct); ok {
+					for i := 0; i < st.NumFields(); i++ {
+						if st.Field(i) == f {
+							return core.ShortPkg(f.Pkg().Path()) + "." + name + "." + f.Name()
+						}
+					}
+				}
+			}
+		}
+		return core.ShortPkg(f.Pkg().Path()) + ".?." + f.Name()
+	}
+	c.Check("C15-R9", "published-not-recycled", "no slice field of the content scanner or builder is both handed out and recycled by re-slicing to length zero (except the documented per-operator argument buffer)", func(o *core.Ob) {
+		o.Count(nFields)
+		o.Fact("%d slice fields, %d published, %d recycled", nFields, len(publish), len(recycle))
+		for f, rs := range recycle {
+			ps := publish[f]
+			if len(ps) == 0 {
+				continue
+			}
+			key := fieldKey(f)
+			if why, ok := recycleExempt[key]; ok {
+				o.Fact("%s: handed out and recycled by contract: %s", key, why)
+				continue
+			}
+			for _, r := range rs {
+				o.FailAt(r.fn.Site(r.node, "recycled"), "%s: %s recycles the storage of %s (%s), which is handed out at %s (%s): later writes overwrite what the holder sees", c.Prog.Pos(r.node.Pos()), r.fn.Key, key, r.how, c.Prog.Pos(ps[0].node.Pos()), ps[0].how)
+			}
+		}
+		o.Require(nFields >= 5, "only %d slice fields found", nFields)
 	})
 }
